@@ -14,7 +14,12 @@ CHECK = {
              '(b) adversarial: sorted, reversed, constant, two-valued (random/alternating), organ-pipe, valley, sawtooth, '
              'rotated-by-one, random with many ties, n = 0..1000, ~2048/4096, 20000, 50000 (possibly quadratic '
              'selector/pattern pairs capped at 4096; quick tier runs the biggest lengths in 1 case of 8, rotating with the '
-             'seed). (c) seeded random arrays/selectors/sizes/tapes. After every sort: non-decreasing under the '
+             'seed); almost sorted inputs at n = 64..5000 through every selector and both APIs: an ordered run followed by 1..16 arbitrary elements '
+             '(every tail length x {arbitrary, a new strict maximum / minimum in 2nd, 3rd, last trailing position, duplicates of the maximum, only new maxima, only new minima}), '
+             'arbitrary elements in front of an ordered run, an ordered run with 1..8 positions overwritten, two and three ordered runs, an ordered run with one element moved far; '
+             'elements of 257, 300, 511, 513, 1000, 4097 and 5000 bytes (key at offset 0, 7, 507, 254, 501, 4093, 4096; every byte of the record depends on its tag) with 0..64 '
+             'elements through every selector, both APIs, sort + search + find + reverse, the vector block must hold exactly one scratch slot of the element size behind its capacity. '
+             '(c) seeded random arrays/selectors/sizes/tapes. After every sort: non-decreasing under the '
              'comparator, byte-wise permutation of the input records via unique tags (multiset for 1-byte records), vector '
              'slack slots untouched; array bytes equal a shadow permuted only by the observed swap calls (element bytes move '
              'through the caller swap only); one raw-array run in three uses a swap function with a private scratch and '
@@ -25,6 +30,7 @@ CHECK = {
              'the reversed output (first match required), reverse checked as exact byte-wise mirror; count 0 and 1 '
              'included everywhere. A case is distinct by hash(selector, element size, input bytes) and non-trivial when '
              'n >= 2.'
+             ' Plus (harness/swapfn.c) cstl_swap() itself for every size 0..2200, 4095..4097, 8192/8193, 65536/65537 and seeded sizes up to 70000 (thorough 1 MiB): two objects whose patterns differ in every byte and a scratch buffer in exact-size blocks, with guard bytes, at odd addresses, at the end of a block, as neighbouring array elements, called directly, through a function pointer and with compile-time sizes: every byte exchanged, no guard byte changed, no allocator call; cstl_fls() for 0, every power of two +-1, masks, a sweep and random values against a shift-and-count reference.'
              ' Plus (harness/huge.c, the library as shipped without sanitizer) sorted arrays of 2^32+40, 2^31+40 and 1.5*2^30+40 one-byte elements in three runs (10, 20, 30): binary search through the raw-array and the vector API for each run, for absent values below/between/above (result inside the right run or -1, at most 80 comparisons, every comparator argument inside the array or the probe), linear find whose result is above 2^32, reverse of 2^31+40 elements checked as exact mirror.'),
     'assumptions': ['the huge scenarios need 3-12 GiB of free memory; one that the machine cannot back (MemAvailable too small, or the C library refuses the request) is skipped and counted (huge.skipped.*), nothing is concluded from it',
                     'comparison functions are total orders returning any negative/zero/positive int (-1/0/1 and INT_MIN/0/INT_MAX are both used)',
@@ -33,6 +39,9 @@ CHECK = {
                     'gcc 12 ASan/UBSan runtimes; dbg-asan keeps the library asserts live, rel-asan is the NDEBUG -O2 build'],
     'runs': [
         {'harness': 'sort', 'sources': ['harness/sort.c'], 'cflags': ['-O2'], 'configs': both(['dbg-asan', 'rel-asan'])},
+        # cstl_swap() and cstl_fls() themselves: every size 0..2200 and some up to 65537 (thorough 1 MiB), aligned/misaligned/neighbouring objects,
+        # guard bytes + red zones (harness/swapfn.c); checks.py adds clang-uchar-asan and rel-native
+        {'harness': 'swapfn', 'sources': ['harness/swapfn.c'], 'cflags': ['-O2'], 'configs': both(['rel-asan'])},
         # objects of 2^31 .. 2^33 elements, the library as shipped (no sanitizer), own oracles (harness/huge.c)
         {'harness': 'huge', 'sources': ['harness/huge.c'], 'mode': 'search', 'configs': both(['rel-huge']), 'workers': 3},
     ],
